@@ -574,13 +574,14 @@ func (g *Gen) normEq(o *Occ) {
 		case SScalar:
 			cmpLeaf(w, s.Leaf, xa, xb, lab)
 		case SList:
-			w(`vrt.Assert(ps+path+"%s:len", len(%s) == len(%s))`, lab, xa, xb)
+			// (leaf prefix: losing or gaining an element of a scalar list / map is a loss of scalar values - C19 as well as C04)
+			w(`vrt.Assert(pl+path+"%s:len", len(%s) == len(%s))`, lab, xa, xb)
 			w(`for i := range %s { if i < len(%s) {`, xa, xb)
 			cmpLeaf(w, s.Leaf, xa+"[i]", xb+"[i]", lab+"[]")
 			w(`} }`)
 		case SMap:
-			w(`vrt.Assert(ps+path+"%s:len", len(%s) == len(%s))`, lab, xa, xb)
-			w(`for k, va := range %s { vb, ok := %s[k]; vrt.Assert(ps+path+"%s:key", ok); if ok {`, xa, xb, lab)
+			w(`vrt.Assert(pl+path+"%s:len", len(%s) == len(%s))`, lab, xa, xb)
+			w(`for k, va := range %s { vb, ok := %s[k]; vrt.Assert(pl+path+"%s:key", ok); if ok {`, xa, xb, lab)
 			cmpLeaf(w, s.Leaf, "va", "vb", lab+"[]")
 			w(`} }`)
 		case SMsg:
